@@ -196,7 +196,7 @@ def generate(rng, opts=None):
     promote, storage (list), autoivc."""
     o = Opts(opts or {})
     ncomp = o.ncomp or rng.randrange(2, 6)
-    depth = o.depth if o.depth is not None else rng.randrange(0, 3)
+    depth = o.depth if o.depth is not None else rng.choice([0, 1, 2, 2, 2])
     comps = []
     outs = []       # global output list: dict(comp, k, shape, units)
     ins = []        # global input list
@@ -208,7 +208,7 @@ def generate(rng, opts=None):
     place = {}
     for c in range(1, ncomp + 1):
         r = rng.random()
-        if len(cur) < depth and r < .45:
+        if len(cur) < depth and r < .55:
             ngroups += 1
             cur = cur + ['g%d' % ngroups]
             gpaths.append('.'.join(cur))
@@ -394,7 +394,7 @@ LN_FOR_CYCLE = [('direct', {'assemble_jac': False}), ('direct', {'assemble_jac':
 LN_ANY = [('runonce', {}), ('direct', {'assemble_jac': False}), ('direct', {'assemble_jac': True}), ('lnbgs', {}), ('krylov', {})]
 
 
-def assign_solvers(rng, md, nl=None, ln=None, jac=None):
+def assign_solvers(rng, md, nl=None, ln=None, jac=None, stack_p=.7):
     """legal solver stacks: iterative / direct solvers on every group with a cycle among its children; any linear
     solver on the root otherwise.  jac: assembled jacobian type for the root ('dense'|'csc'|None)."""
     sv = {}
@@ -412,6 +412,13 @@ def assign_solvers(rng, md, nl=None, ln=None, jac=None):
             lnn, lo = 'direct', {'assemble_jac': False}
         sv[gp] = {'nl': {'name': nln, 'opts': {'err_on_non_converge': True}},
                   'ln': {'name': lnn, 'opts': dict(lo, **({} if lnn in ('direct', 'runonce') else {'err_on_non_converge': True}))}}
+    # a three-level stack that changes the scope of a sub-group's products: assembled jacobian below a Krylov parent
+    nested = [gp for gp in md['groups'] if gp.count('.') >= 1 and gp not in sv and gp.rpartition('.')[0] not in sv]
+    if nested and rng.random() < stack_p:
+        child = rng.choice(nested)
+        parent = child.rpartition('.')[0]
+        sv[parent] = {'nl': None, 'ln': {'name': 'krylov', 'opts': {'err_on_non_converge': True}}}
+        sv[child] = {'nl': None, 'ln': {'name': 'direct', 'opts': {'assemble_jac': True}}}
     # sub-groups may carry their own linear solver (assembled or recursing) below any kind of parent solver
     for gp in md['groups']:
         if gp and gp not in sv and rng.random() < .4:
@@ -536,6 +543,8 @@ def add_output_scaling(rng, md, frac=.7):
             o['ref'], o['ref0'] = rj(F(2)), rj(F(1))
         o['res_ref'] = rng.choice([None, rj(F(4)), rj(F(-2)), rj(F(1, 2))])
     md['scaled'] = True
+    # sometimes all scaling is given after the outputs were declared, through set_output_solver_options
+    md['scale_api'] = rng.random() < .3
     return md
 
 
